@@ -104,12 +104,6 @@ Inductive op :=
 
 Inductive rval := VUnit | VZ (z : Z) | VBytes (l : list Z) | VBool (b : bool) | VNone.
 
-Definition empty_state : mstate :=
-  {| regs := fun _ => 0; xmms := fun _ => 0; rflags := 0; fs := 0; gs := 0; mem := nil;
-     finished := false; icount := 0; max_instr := None; call_stack := nil; trace := nil;
-     sys := empty_sys; stack_top := 0; code_end := 0; hooks_running := false; symbols := nil;
-     hooked := fun _ => false |}.
-
 Definition START_NAME : list Z := [95; 115; 116; 97; 114; 116]. (* "_start" *)
 
 Section Run.
